@@ -777,6 +777,9 @@ class StyleProperties:
         line_through = None
         overline = None
 
+        if not set(s) <= {"underline", "noUnderline", "lineThrough", "noLineThrough", "overline", "noOverline"}:
+          raise ValueError("Bad tts:textDecoration syntax")
+
         if "underline" in s:
           underline = True
         elif "noUnderline" in s:
